@@ -23,9 +23,10 @@ What is modelled, and how
   match, so the order is immaterial.
 * `byteCompare = false` is the documented configuration "file or uncmp is NULL: size and hash alone";
   `lib/common/src/writer/init.c` passes both, so the tools run with `byteCompare = true`.
-* A fragment block that is entirely zero is detected sparse by `process_block` (it carries no
-  `IGNORE_SPARSE`) and never written: its table entry stays `(0, 0)` (defect D24, owned by C17).  The model
-  keeps that behaviour (`Place.lost`); the C08 theorems assume no all-zero fragment is stored.
+* A fragment block is never taken for a hole (`process_block` skips the sparse test for
+  `SQFS_BLK_FRAGMENT_BLOCK` since /repo 47f7b3d; before that an all-zero block was lost — D24).
+* The lookup key of a table entry is (size, checksum, `DONT_COMPRESS` of the fragment) since /repo fcd11e4: a
+  `dont_compress` tail end never shares a slot with a compressible twin.
 -/
 import Sqfs.Generated.Consts
 namespace Sqfs.FragDedup
@@ -53,7 +54,6 @@ inductive Place where
   | opened                                         -- `proc->frag_block`
   | inFlight                                       -- copy in `proc->fblk_in_flight`
   | written (stored : Bytes) (compressed : Bool)   -- on disk; fragment-table entry (start, size | raw-bit)
-  | lost                                           -- all-zero block taken for sparse: never written, entry (0,0)
 deriving DecidableEq, Repr
 
 structure FragBlock where
@@ -68,6 +68,7 @@ structure Chunk where
   offset : Nat
   size   : Nat
   hash   : UInt32
+  flags  : Nat           -- `frag->flags & SQFS_BLK_DONT_COMPRESS`
 deriving DecidableEq, Repr
 
 structure State where
@@ -102,11 +103,6 @@ where
         | some x => if x.isEmpty then .error .compressor else .ok (x, some (idx, x))   -- `ret <= 0`
         | none => .error .compressor
       | .written stored false => .ok (stored, some (idx, stored))
-      | .lost =>
-        -- entry (0,0): size word 0 reads as "compressed, 0 bytes"; `do_block` on nothing fails
-        match codec.unc [] with
-        | some x => if x.isEmpty then .error .compressor else .ok (x, some (idx, x))
-        | none => .error .compressor
       -- not reachable from `chunkEquals`: in-flight and open blocks are found before the table is consulted
       | _ => .error .badEvent
 
@@ -119,10 +115,10 @@ def fragBytesFor (codec : Codec) (st : State) (idx : Nat) : Except Err (Bytes ×
   | _ => loadFragBlock codec st idx
 
 /-- `chunk_info_equals(proc, key, cmp)` with `proc->current_frag = d`: does table entry `c` hold the bytes `d`?
-Returns the answer and the new cache. (`key->size`, `key->hash` are `d.length`, `hd`.) -/
-def chunkEquals (codec : Codec) (byteCompare : Bool) (st : State) (d : Bytes) (hd : UInt32) (c : Chunk) :
+Returns the answer and the new cache. (`key->size`, `key->hash`, `key->flags` are `d.length`, `hd`, `kf`.) -/
+def chunkEquals (codec : Codec) (byteCompare : Bool) (st : State) (d : Bytes) (hd : UInt32) (kf : Nat) (c : Chunk) :
     Except Err (Bool × Option (Nat × Bytes)) :=
-  if c.size != d.length || c.hash != hd then .ok (false, st.cache)
+  if c.size != d.length || c.hash != hd || c.flags != kf then .ok (false, st.cache)
   else if !byteCompare then .ok (true, st.cache)
   else
     match fragBytesFor codec st c.index with
@@ -132,14 +128,14 @@ def chunkEquals (codec : Codec) (byteCompare : Bool) (st : State) (d : Bytes) (h
       else .ok (slice blk c.offset c.size == d, cache')
 
 /-- `hash_table_search_pre_hashed`: first entry for which the equality callback answers yes. -/
-def search (codec : Codec) (byteCompare : Bool) (st : State) (d : Bytes) (hd : UInt32) :
+def search (codec : Codec) (byteCompare : Bool) (st : State) (d : Bytes) (hd : UInt32) (kf : Nat) :
     List Chunk → Except Err (Option Chunk × State)
   | [] => .ok (none, st)
   | c :: rest =>
-    match chunkEquals codec byteCompare st d hd c with
+    match chunkEquals codec byteCompare st d hd kf c with
     | .error e => .error e
     | .ok (true, cache') => .ok (some c, { st with cache := cache' })
-    | .ok (false, cache') => search codec byteCompare { st with cache := cache' } d hd rest
+    | .ok (false, cache') => search codec byteCompare { st with cache := cache' } d hd kf rest
 
 /-- `hash_table_insert_pre_hashed(ht, hash, chunk, chunk)`: replaces the first entry the callback calls equal,
 else adds the new one.  `done` = entries already passed. -/
@@ -147,7 +143,7 @@ def insert (codec : Codec) (byteCompare : Bool) (st : State) (d : Bytes) (hd : U
     (done : List Chunk) : List Chunk → Except Err State
   | [] => .ok { st with table := done ++ [new] }
   | c :: rest =>
-    match chunkEquals codec byteCompare st d hd c with
+    match chunkEquals codec byteCompare st d hd new.flags c with
     | .error e => .error e
     | .ok (true, cache') => .ok { st with table := done ++ new :: rest, cache := cache' }
     | .ok (false, cache') => insert codec byteCompare { st with cache := cache' } d hd new (done ++ [c]) rest
@@ -193,13 +189,13 @@ def fragHash (h : Bytes → UInt32) (d : Bytes) (flags : Nat) : UInt32 :=
 def findShared (codec : Codec) (byteCompare : Bool) (st : State) (d : Bytes) (hd : UInt32) (flags : Nat) :
     Except Err (Option Chunk × State) :=
   if hasFlag flags blkDontDeduplicate then .ok (none, st)
-  else search codec byteCompare st d hd st.table
+  else search codec byteCompare st d hd (flags &&& blkDontCompress) st.table
 
 /-- the part of `process_completed_fragment` after an unsuccessful lookup: store the fragment and record it -/
 def storeFragment (codec : Codec) (byteCompare : Bool) (maxBlock : Nat) (st : State) (d : Bytes) (hd : UInt32)
     (flags : Nat) : Except Err (Res × State) :=
   let r := place (overflow maxBlock st d) d flags
-  match insert codec byteCompare r.2.2 d hd ⟨r.1, r.2.1, d.length, hd⟩ [] r.2.2.table with
+  match insert codec byteCompare r.2.2 d hd ⟨r.1, r.2.1, d.length, hd, flags &&& blkDontCompress⟩ [] r.2.2.table with
   | .error e => .error e
   | .ok st4 => .ok (.loc r.1 r.2.1, st4)
 
@@ -217,13 +213,12 @@ def processFragment (codec : Codec) (h : Bytes → UInt32) (byteCompare : Bool) 
 
 /-- `process_completed_block` of fragment block `idx` (after the worker ran `process_block` on it): the
 in-flight copy is dropped and the block is on disk — compressed when the codec accepted and
-`DONT_COMPRESS` is not set; not at all when it is all zero (D24). -/
+`DONT_COMPRESS` is not set (a fragment block is never sparse). -/
 def blockWritten (codec : Codec) (st : State) (idx : Nat) : Except Err State :=
   match st.blocks[idx]? with
   | some ⟨data, .inFlight, fl⟩ =>
     let place : Place :=
-      if allZero data then .lost
-      else if hasFlag fl blkDontCompress then .written data false
+      if hasFlag fl blkDontCompress then .written data false
       else match codec.cmp data with
         | some c => .written c true
         | none => .written data false
@@ -268,7 +263,6 @@ def readBlock (codec : Codec) (st : State) (idx : Nat) : Option Bytes :=
     match b.place with
     | .written stored true => codec.unc stored
     | .written stored false => some stored
-    | .lost => none
     | _ => some b.data
 
 end Sqfs.FragDedup
